@@ -308,6 +308,39 @@ def _gains(g):
     return out
 
 
+def _stream(F, filt, marg, frame, gains, freq, q0, gyr, acc, mag, N):
+    """the same history fed sample by sample through the public update methods, starting from q0"""
+    if filt == 'madgwick':
+        f = F.Madgwick(gyr=gyr[:2], acc=acc[:2], mag=(mag[:2] if marg else None), frequency=freq, **gains)   # selects gain_imu / gain_marg
+        step = (lambda q, t: f.updateMARG(q, gyr[t], acc[t], mag[t])) if marg else (lambda q, t: f.updateIMU(q, gyr[t], acc[t]))
+    elif filt == 'mahony':
+        f = F.Mahony(frequency=freq, **gains)
+        step = (lambda q, t: f.updateMARG(q, gyr[t], acc[t], mag[t])) if marg else (lambda q, t: f.updateIMU(q, gyr[t], acc[t]))
+    elif filt == 'aqua':
+        f = F.AQUA(frequency=freq, frame=frame, **gains)
+        q0 = cm.qconj(q0)
+        step = (lambda q, t: f.updateMARG(q, gyr[t], acc[t], mag[t])) if marg else (lambda q, t: f.updateIMU(q, gyr[t], acc[t]))
+    elif filt == 'ekf':
+        f = F.EKF(frequency=freq, frame=frame, magnetic_ref=DIP, **gains)
+        step = (lambda q, t: f.update(q, gyr[t], acc[t], mag[t])) if marg else (lambda q, t: f.update(q, gyr[t], acc[t]))
+    elif filt == 'roleq':
+        f = F.ROLEQ(frequency=freq, frame=frame, magnetic_ref=DIP, **gains)
+        step = lambda q, t: f.update(q, gyr[t], acc[t], mag[t])
+    elif filt == 'ukf':
+        f = F.UKF(frequency=freq, **gains)
+        step = lambda q, t: f.update(q, gyr[t], acc[t])
+    else:
+        raise KeyError(f'{filt} has no streaming entry point')
+    Qs = np.zeros((N, 4))
+    Qs[0] = q0
+    for t in range(1, N):
+        Qs[t] = np.asarray(step(Qs[t - 1].copy(), t), float)
+    return Qs
+
+
+STREAMABLE = ('madgwick', 'mahony', 'aqua', 'ekf', 'roleq', 'ukf')
+
+
 def _acc_scale(inp):
     """accelerometer magnitude: a number, or 'k*G' = k times the gravity constant AQUA's adaptive gain compares with"""
     v = inp.get('acc_scale', 9.81)
@@ -340,7 +373,10 @@ def run_filter(inp):
     conj = False
     with warnings.catch_warnings(), np.errstate(all='ignore'):
         warnings.simplefilter('ignore')
-        if filt == 'madgwick':
+        if inp.get('stream'):
+            Qs = _stream(F, filt, marg, frame, gains, freq, q0, gyr, acc, mag, N)
+            conj = filt == 'aqua'
+        elif filt == 'madgwick':
             if not marg:
                 Qs = F.Madgwick(gyr=gyr, acc=acc, q0=q0, frequency=freq, **gains).Q
             else:       # the MARG constructor ignores q0 (ecompass of sample 0): stream the public update from q0
@@ -568,19 +604,39 @@ def search(ctx, scale):
             continue
         marg = row[1]
         if not thorough:
-            plan = [(atts[4 + ci % 4], 175.0, (0.0, 45.0, 90.0)[ci % 3], 40.0),
-                    (atts[ci % 4], (120.0, 90.0, 60.0)[ci % 3], (90.0, 0.0, 45.0)[ci % 3], 200.0),
-                    (atts[4 + (ci + 1) % 4], 5.0, 30.0, 300.0)]
+            if marg:    # tilt-only, heading-only beyond 90 deg (rotation about the vertical), heading-only 175, mixed, small
+                plan = [(atts[4 + ci % 4], 175.0, 0.0, 40.0),
+                        (atts[ci % 4], (100.0, 135.0, 160.0)[ci % 3], 90.0, 0.0),
+                        (atts[4 + (ci + 2) % 4], 175.0, 90.0, 0.0),
+                        (atts[4 + (ci + 1) % 4], (150.0, 120.0, 60.0)[ci % 3], 45.0, 200.0),
+                        (atts[(ci + 1) % 4], 5.0, 30.0, 300.0)]
+            else:
+                plan = [(atts[4 + ci % 4], 175.0, 0.0, 40.0),
+                        (atts[ci % 4], (120.0, 90.0, 60.0)[ci % 3], 0.0, 200.0),
+                        (atts[4 + (ci + 1) % 4], 5.0, 0.0, 300.0)]
         else:
             plan = []
             for ai, q in enumerate(atts):
                 for ang in (175.0, (150.0, 120.0, 90.0, 45.0, 10.0)[(ai + ci) % 5]):
                     for el in ((0.0, 45.0, 90.0) if marg else (0.0,)):
                         plan.append((q, ang, el, float(rng.uniform(0, 360))))
+                if marg:
+                    plan.append((q, (95.0, 120.0, 150.0)[(ai + ci) % 3], 90.0, 0.0))
         for k, (q, ang, el, az) in enumerate(plan):
             inp = _cfg_inp(row, q, ang, el if marg else min(el, 60.0), az, seed=1000 * ci + k)
             ctx.check('converge', inp, o_converge(inp),
                       nontrivial_key=(ci, tuple(np.round(q, 6)), ang, el, round(az, 3)) if ang >= 5 else None)
+    # the same through the streaming entry points (update / updateIMU / updateMARG), first row of each (filter, mode, frame)
+    seen = set()
+    for ci, row in enumerate(CONFIGS):
+        key = (row[0], row[1], row[2])
+        if row[0] not in STREAMABLE or key in seen or (row[9] == 't' and not thorough):
+            continue
+        seen.add(key)
+        for k, (ang, el) in enumerate(((150.0, 90.0), (175.0, 30.0)) if row[1] else ((150.0, 0.0),)):
+            inp = _cfg_inp(row, atts[4 + (ci + k) % 4], ang, el, 77.0, seed=500 + ci)
+            inp['stream'] = True
+            ctx.check('converge', inp, o_converge(inp), nontrivial_key=('stream', ci, ang, el))
     # exact-zero gyroscope: one run per filter and mode
     for ci, row in enumerate(CONFIGS):
         if row[3] or row[9] == 't' or len(row) > 10:
